@@ -539,19 +539,23 @@ func evalCmp(op token.Token, a, k int) bool {
 func checkResolveFunc(w *World, r *Result) {
 	fi := w.MustFunc("analysis/httpapi.resolveFunc")
 	info := fi.Pkg.TypesInfo
-	// the assignment `body = decl.Body`
+	// the assignment `body = decl.Body`: in resolveFunc, in a closure of it, or in a function / method of the package
+	// it hands to the syntax walk
 	var as *ast.AssignStmt
-	ast.Inspect(fi.Decl.Body, func(x ast.Node) bool {
-		if a, ok := x.(*ast.AssignStmt); ok && len(a.Rhs) == 1 && strings.HasSuffix(es(a.Rhs[0]), ".Body") {
-			as = a
-		}
-		return true
-	})
+	host := fi
+	for _, cf := range calleeClosure(w, fi, 2) {
+		ast.Inspect(cf.Decl.Body, func(x ast.Node) bool {
+			if a, ok := x.(*ast.AssignStmt); ok && len(a.Rhs) == 1 && strings.HasSuffix(es(a.Rhs[0]), ".Body") && as == nil {
+				as, host = a, cf
+			}
+			return true
+		})
+	}
 	if as == nil {
 		Undecided("resolveFunc: body selection not found")
 	}
 	byPos, byName := false, false
-	for _, c := range pathConds(fi.Decl, as) {
+	for _, c := range pathConds(host.Decl, as) {
 		if c.expr == nil {
 			continue
 		}
@@ -564,7 +568,7 @@ func checkResolveFunc(w *World, r *Result) {
 		}
 	}
 	// early-exit form: if !(pos inside) { return true }
-	ast.Inspect(fi.Decl.Body, func(x ast.Node) bool {
+	ast.Inspect(host.Decl.Body, func(x ast.Node) bool {
 		// an ordering comparison against the Pos()/End() of a syntax node
 		if be, ok := x.(*ast.BinaryExpr); ok && (be.Op == token.LSS || be.Op == token.LEQ || be.Op == token.GTR || be.Op == token.GEQ) {
 			for _, side := range []ast.Expr{be.X, be.Y} {
